@@ -107,7 +107,7 @@ def ht_units(order, kind, tier):
             if op == "put" and order <= 6:
                 # add range 2^(order-1) <= hop range 32: displacement (find_closer_entry) must be unreachable;
                 # its body is replaced by assert(false) so that reaching it fails an obligation
-                c2["goto_instrument_args"] = ["--generate-function-body", "find_closer_entry_VT",
+                c2["goto_instrument_args"] = ["--remove-function-body", "find_closer_entry_VT", "--generate-function-body", "find_closer_entry_VT",
                                               "--generate-function-body-options", "assert-false-assume-false"]
             unit("ht.%s.%s.%d" % (op, sfx, i + 1), ["C17", "C06"], "units/ht.c", entry="h_ht_" + op,
                  functions=["%s_<name> (order %d, %s keys)" % (fn, order, kind)], expect_tags=[tag], timeout=600, **c2)
@@ -129,3 +129,16 @@ for _w in range(12):
          assumes=["libc: CBMC built-in strcmp/strncmp/strlen, assumed models of strstr/strcasestr/strcasecmp/strncasecmp (C locale)"])
 unit("match.table", ["C16"], "units/match_fn.c", entry="h_match_table", unwind=16, functions=["matchers[] (rule-name table)"],
      expect_tags=["C16.match.table-names", "C16.match.table-functions"], timeout=120)
+
+# ------------------------------------------------------------------------------------------
+# C12 WebSocket endpoint
+# ------------------------------------------------------------------------------------------
+WS_COMMON = dict(includes=["{REPO}/src/zlib"], defines=["NO_GZIP"], solver="cadical", unwind=16,
+                 goto_instrument_args=["--value-set-fi-fp-removal"])
+unit("ws.hdr", ["C12", "C06"], "units/ws.c", entry="h_ws_hdr",
+     functions=["ws_get_header", "ws_get_first_length", "ws_get_length16", "ws_get_length64", "ws_get_mask", "read_mask_or_payload", "handle_error", "websocket_close", "websocket_send_close_frame"],
+     expect_tags=["C12.hdr.first-byte-decoded", "C12.hdr.16bit-length-big-endian", "C12.hdr.eof-releases-connection-once"], timeout=300,
+     **dict(WS_COMMON, goto_instrument_args=["--remove-function-body", "ws_get_payload", "--generate-function-body", "ws_get_payload", "--generate-function-body-options", "nondet-return", "--value-set-fi-fp-removal"]),
+     assumes=["ws_get_payload is cut off in this unit (its body is verified in ws.frame); zero-length frames continue there"])
+unit("ws.send", ["C12", "C10", "C06"], "units/ws.c", entry="h_ws_send", functions=["send_frame"],
+     expect_tags=["C12.send.minimal-length-16bit", "C12.send.server-frames-unmasked"], timeout=300, **WS_COMMON)
